@@ -339,6 +339,8 @@ pub fn scope(name: &str) -> Scope {
             false,
             &['a', 'b', 'c', 'd'],
         ),
+        // counted repeats of bodies that are empty only at a line boundary, under flag m
+        "ALTM" => Scope::new("ALTM", &["a", "b", "(?:^|a)", "(?:a|$)", "\\n"], &["{2}", "{3}", "?"], false, &['a', 'b', '\n']),
         // line-anchored terms that consume newlines: several matches on consecutive lines
         "ANL" => Scope::new("ANL", &["(?:^a)", "a", "\\n", "^", "(?:a$)", ".", "[^b]"], &["?", "*"], false, &['a', '\n', 'b']),
         // character classes inside capturing groups (first-character filters derived
